@@ -69,15 +69,19 @@ package kgo
 // MaxVersions entry for ApiVersions when one is configured (first two tries), 0 on the third try, and otherwise
 // at most 4; a broker-driven downgrade only ever lowers it. The broker's advertised ranges are stored unchanged.
 //@ func logID(id int32) (s string)
-//@   prop C21
+//@   prop C21 C22
 //@   modifies nothing
 
 //@ func (cxn *brokerCxn) requestAPIVersions(tries int) (err error)
-//@   prop C21
+//@   prop C21 C22
+//   every downgrade round strictly lowers the version (and it never goes below 0): the loop ends after at most
+//   maxVersion + 1 rounds, whatever the broker keeps answering (it runs on no request context)
+//@   loop 0 backedge [every-downgrade-round-strictly-lowers-the-version] maxVersion < athead(maxVersion)
 //@   loop 0 invariant [non-negative] 0 <= maxVersion
 //@   loop 0 invariant [third-try] tries >= 3 ==> maxVersion == 0
 //@   loop 0 invariant [user-max] ($LookupMaxKeyVersion0_1 && $LookupMaxKeyVersion0_0 >= 0) ==> maxVersion <= $LookupMaxKeyVersion0_0
 //@   loop 0 invariant [client-max] !($LookupMaxKeyVersion0_1 && $LookupMaxKeyVersion0_0 >= 0) ==> maxVersion <= 4
+//@   site call writeRequest#0 assume cxn.corrID >= 0  // representation invariant of the field (C22: zero value, kept by writeRequest, its only writer by audit)
 //@   site call writeRequest#0 assert [written-request-is-req] sameobject(arg3, req)
 //@   site call writeRequest#0 assert [written-with-the-current-version] req.Version == maxVersion
 //@   site store Version#0 assert [api-versions-non-negative] 0 <= val
